@@ -20,7 +20,7 @@ pub enum Op {
     RemoveNode(u16),
     RemoveAbsentNode(u16),
     /// set an edge between two live nodes: kind 0 add_edge/update_edge, 1 update_edge, 2 try_update_edge,
-    /// 3 add_or_update_edge, 4 Build::add_edge, 5 Build::update_edge
+    /// 3 add_or_update_edge, 4 Build::add_edge (update_edge when present), 5 Build::update_edge, 6 Build::add_edge also when the edge is present (must refuse and change nothing)
     SetEdge(u8, u16, u16),
     /// edge between the two highest live ids (forces row relocation at the next growth)
     SetHighEdge(u16),
@@ -53,7 +53,7 @@ fn op_strategy() -> impl Strategy<Value = Op> {
         12 => (0u8..3).prop_map(Op::AddNode),
         6 => s().prop_map(Op::RemoveNode),
         1 => s().prop_map(Op::RemoveAbsentNode),
-        24 => (0u8..6, s(), s()).prop_map(|(k, a, b)| Op::SetEdge(k, a, b)),
+        24 => (0u8..7, s(), s()).prop_map(|(k, a, b)| Op::SetEdge(k, a, b)),
         6 => s().prop_map(Op::SetHighEdge),
         6 => s().prop_map(Op::RemoveEdge),
         1 => (s(), s()).prop_map(|(a, b)| Op::RemoveAbsentEdge(a, b)),
@@ -295,6 +295,16 @@ fn run_cfg<Ty: ObsDir<Null, Ix>, Null: Nullable<Wrapped = i32>, Ix: IndexType>(c
                 let w = counter;
                 let key = m.key(a, b);
                 let old = m.edges.get(&key).copied();
+                if kind == 6 && old.is_some() {
+                    // Build::add_edge on an existing edge: refused, nothing changes
+                    match guarded(|| Build::add_edge(&mut g, ix(a), ix(b), w)) {
+                        Ok(r) => ck!(r.is_none(), "build-add_edge-duplicate", "{at}: Build::add_edge({a},{b}) on an existing edge returned {r:?}"),
+                        Err(e) => return fail("C04/update_edge-panics", format!("{at}: Build::add_edge on the existing edge {a}->{b} panicked: {e}")),
+                    }
+                    obs.label("Build::add_edge refused (edge present)");
+                    observe_common(&g, &m, &at, true)?;
+                    continue;
+                }
                 let res: Result<Option<i32>, String> = match kind {
                     0 if old.is_none() => guarded(|| {
                         g.add_edge(ix(a), ix(b), w);
@@ -303,7 +313,7 @@ fn run_cfg<Ty: ObsDir<Null, Ix>, Null: Nullable<Wrapped = i32>, Ix: IndexType>(c
                     0 | 1 => guarded(|| g.update_edge(ix(a), ix(b), w)),
                     2 => guarded(|| g.try_update_edge(ix(a), ix(b), w).expect("live nodes")),
                     3 => guarded(|| g.add_or_update_edge(ix(a), ix(b), w).expect("live nodes")),
-                    4 if old.is_none() => guarded(|| {
+                    4 | 6 if old.is_none() => guarded(|| {
                         let r = Build::add_edge(&mut g, ix(a), ix(b), w);
                         assert!(r.is_some(), "Build::add_edge returned None for a new edge");
                         None
@@ -490,7 +500,7 @@ pub fn fuzz_domain(c: &mut Case) -> bool {
     for o in c.ops.iter_mut() {
         match o {
             Op::AddNode(k) => *k %= 3,
-            Op::SetEdge(k, ..) => *k %= 6,
+            Op::SetEdge(k, ..) => *k %= 7,
             Op::NodeWeight(_, k) | Op::EdgeWeight(_, k) => *k %= 3,
             Op::BulkNodes(k) if *k < 20 => *k = 1 + *k % 19,
             Op::Extend(v) => v.truncate(3),
